@@ -50,6 +50,7 @@ const (
 	FaultClose           // the stream ends cleanly (EOF) after Off bytes; later writes fail
 	FaultReset           // like FaultClose but the reader gets an error instead of EOF
 	FaultWriteErr        // the Write call covering Off moves nothing and returns ErrWriteTimeout; later writes work
+	FaultReadErr         // the first Read issued once Off bytes have been delivered returns (0, ErrReadTimeout); nothing is lost, later reads work
 )
 
 // Fault is one entry of a fault plan; Off is a position in the byte stream of
@@ -65,6 +66,9 @@ type Fault struct {
 
 // ErrWriteTimeout is what a transiently failing Write returns.
 var ErrWriteTimeout = errors.New("simnet: write timeout (nothing was written)")
+
+// ErrReadTimeout is the transient read error of FaultReadErr.
+var ErrReadTimeout = errors.New("simnet: read timeout (nothing was read, nothing is lost)")
 
 // ErrReset is delivered to readers of a reset stream.
 var ErrReset = errors.New("simnet: connection reset by peer")
@@ -311,6 +315,14 @@ func (s *stream) read(p []byte) (int, error) {
 	rt.Yield()
 	if len(p) == 0 {
 		return 0, nil
+	}
+	for i := range s.cfg.Faults {
+		f := &s.cfg.Faults[i]
+		if f.Kind == FaultReadErr && !f.hit && s.delivered >= f.Off {
+			s.fired(f)
+			rt.LogEvent('r', 0, s.delivered)
+			return 0, ErrReadTimeout
+		}
 	}
 	for {
 		if s.closedR {
